@@ -12,7 +12,8 @@ Oracle for the `qtp` driver (property C11). Ops (see harness/drivers/qtp/qtp_tes
   populate <tokens> <scid>     => in=<canon> n=… dm=… scid=… ov=… wire=… left=<canon> | PANIC
   spec <QUICID> <rand> <ids> <tokens|=> => in=<canon> cs=… want=… scidlen=…
   tpids                        => ids=<ids>
-  dial                         => cs=… exts=… sexts=… qtp=<hex> scid=<hex> frames=… fp=… own=<canon>
+  dial                         => cs=… exts=… sexts=… qtp=<hex> scid=<hex> frames=… fp=… rec=<logged own parameters>
+                                  ov=<ClientOverride hex> after=<canon: the spec's list after the dial>
   shufdist <n> <N> / dialdist <QUICID> <n> <N> => c=<counts per permutation, lexicographic>
 
 Random parts (GREASE ids/values drawn by uTLS, shuffle draws, everything of a real dial) are recovered
@@ -209,7 +210,6 @@ structure Ghost where
   cs : List Nat := []
   want : String := ""
   dials : Nat := 0                -- dials made with this spec value
-  firstQtp : String := ""
   tpids : Option (List Nat) := none
   refs : List (String × String × List Nat × String) := []   -- key ↦ (fingerprint, frame types, canonical view)
 
@@ -293,7 +293,9 @@ def stepShuffle (toksS impl : String) : StepOut :=
   let model := s!"in={fmtCanons inp} out={fmtCanons (withMasks inp out)}"
   let fails :=
     failIf (!okDraw) "grease_draw_valid" "-" s!"in={(field impl "in=").getD "?"}" ++
-    failIf (!(iout.map (·.p)).isPerm ps) "shuffle_is_permutation" "-" s!"out={fmtCanons iout}"
+    failIf (!(iout.map (·.p)).isPerm ps) "shuffle_is_permutation" "-" s!"out={fmtCanons iout}" ++
+    failIf (ps.length ≥ 14 && ps.eraseDups.length == ps.length && iout.map (·.p) == ps) "shuffle_moves" "-"
+      s!"{ps.length} distinct parameters came back in their original order (probability 1/{ps.length}! < 2e-11)"
   let tags := ["shuffle"] ++ (if ps.length ≥ 2 then ["shuffle:n>=2"] else ["shuffle:trivial"]) ++
     (if out != ps then ["shuffle:moved"] else []) ++ (if ps.eraseDups.length != ps.length then ["shuffle:dups"] else [])
   { model := model, tags := tags, fails := fails }
@@ -396,7 +398,7 @@ def stepSpec (s : St) (base randS idsS toksS impl : String) : St × StepOut :=
   let key := s!"{base} {idsS} {toksS}"
   let isRand := randS == "1"
   let g : Ghost := { s with hasSpec := true, key := key, base := base, custom := custom, rand := isRand,
-                            sup := parseNats idsS, list := inp, cs := cs, want := want, dials := 0, firstQtp := "", tpids := none }
+                            sup := parseNats idsS, list := inp, cs := cs, want := want, dials := 0, tpids := none }
   let tags := ["spec", if custom then "spec:custom" else "spec:builtin"] ++ (if g.rand then ["spec:rand"] else []) ++
           (if g.sup.isEmpty then [] else ["spec:suppress"])
   let inS := (field impl "in=").getD "?"
@@ -422,7 +424,7 @@ def stepDial (s : St) (impl : String) : St × StepOut :=
   let qtpS := (field impl "qtp=").getD "?"
   let ws := ((parseHex qtpS).bind parseQTP)
   let scid := ((field impl "scid=").bind parseHex).getD []
-  let own := ((field impl "own=").bind parseCanons).getD []
+  let ovS := (field impl "ov=").getD "?"
   let cs := ((field impl "cs=").map parseNats).getD []
   let exts := ((field impl "exts=").map parseNats).getD []
   let sexts := ((field impl "sexts=").map parseNats).getD []
@@ -436,16 +438,23 @@ def stepDial (s : St) (impl : String) : St × StepOut :=
     if t.p.id == 15 && t.p.typed && t.p.val.isEmpty then ({ t with p := { t.p with val := scid } }, givenSCIDs) else (t, [])
   let matchE (w : Nat × List Nat) (e : TP × List (List Nat)) : Bool :=
     matchPair w e.1 || (w.1 == e.1.p.id && e.2.contains w.2)
-  let stale := s.dials ≥ 1 && qtpS == s.firstQtp
-  let cls := if stale then "stale_reused_spec" else "-"
+  let cls := "-"
   let wireFails := match ws with
     | none => [("wire_is_spec", "-", s!"extension body does not parse: {qtpS}")]
     | some ws =>
       failIf (if s.rand then !permMod2 (fun w e => matchPair w e.1) matchE ws expect
               else !(ws.length == expect.length && (ws.zip expect).all fun (w, e) => matchE w e))
         "wire_is_spec" cls s!"wire={qtpS} expected{if s.rand then " a permutation of" else ""} {fmtCanons (expect.map (·.1))}" ++
-      failIf (!(ws.length == own.length && (ws.zip own).all fun (w, e) => matchPair w e))
-        "own_record_equals_wire" cls s!"wire={qtpS} but the list the connection populated its own parameters from is {fmtCanons own}" ++
+      failIf (s.rand && s.dials == 0 && expect.length ≥ 14 && (expect.map (·.1.p)).eraseDups.length == expect.length &&
+              ws.length == expect.length && ((ws.zip expect).all fun (w, e) => matchE w e)) "shuffle_moves" "-"
+        s!"randomisation is on but {expect.length} distinct parameters are on the wire in spec order (probability < 2e-11)" ++
+      (match (parseHex ovS).bind parseQTP with
+       | none => [("own_record_equals_wire", cls, s!"ClientOverride of the connection is not a parameter list: {ovS}")]
+       | some os =>
+         let maskOf (pid : Nat) : List Bool := ((expect.find? fun e => e.1.p.id == pid && e.1.mask.any (fun b => b)).map (·.1.mask)).getD []
+         failIf (!(os.length == ws.length && (os.zip ws).all fun (o, w) =>
+                    o.1 == w.1 && (o.2 == w.2 || (eqMod o.2 w.2 (maskOf w.1) && eqMod w.2 o.2 (maskOf w.1)))))
+           "own_record_equals_wire" cls s!"ClientOverride={ovS} wire={qtpS}") ++
       (let canonWire := ws.map (·.1)
        (match s.tpids with
         | some l => failIf (!isCanonSortOf l canonWire) "ids_reported_eq_wire" cls s!"TransportParameterIDs said {fmtNats l}, wire ids {fmtNats canonWire}"
@@ -473,7 +482,11 @@ def stepDial (s : St) (impl : String) : St × StepOut :=
     failIf (exts.map canonU16 != sexts.map canonU16) "clienthello_is_spec" "-" s!"extension order {fmtNats exts}, spec {fmtNats sexts}"
   let view := s!"{fmtNats (sortIDs ((ws.getD []).map fun w => specCanon w.1))}|{fmtNats (cs.map canonU16)}|{fmtNats (sortIDs (exts.map canonU16))}"
   let ref := s.refs.find? (fun r => r.1 == s.key)
-  let stab := match ref with
+  -- a fingerprinter keeps the last value of a repeated integer parameter: with different values under one id
+  -- the view legitimately depends on the permutation, so such (server-rejected) lists are not judged
+  let fpIDs := (expect.map (·.1.p.id)).filter fun i => [1, 3, 4, 5, 6, 7, 8, 9, 10, 11, 14].contains i
+  let judged := !s.rand || fpIDs.eraseDups.length == fpIDs.length
+  let stab := if !judged then [] else match ref with
     | none => []
     | some (_, rfp, rframes, rview) =>
       failIf (fp != "-" && rfp != "-" && fp != rfp) "fingerprint_stable" (pingClass frames rframes)
@@ -483,8 +496,8 @@ def stepDial (s : St) (impl : String) : St × StepOut :=
     failIf (!s.custom && s.sup.isEmpty && recorded s.base && fp != "-" && fp != s.want) "fingerprint_recorded"
       (if !frames.contains 1 && s.base.startsWith "QUICChrome_115" then "frameset_without_ping" else "-")
       s!"clienthellod computes {fp}, {s.base} records {s.want} (frame types {fmtNats frames})"
-  let refs := if ref.isNone then (s.key, fp, frames, view) :: s.refs else s.refs
-  let g := { s with dials := s.dials + 1, firstQtp := if s.dials == 0 then qtpS else s.firstQtp, refs := refs }
+  let refs := if ref.isNone && judged then (s.key, fp, frames, view) :: s.refs else s.refs
+  let g := { s with dials := s.dials + 1, refs := refs }
   let tags := ["dial", if s.dials == 0 then "dial:fresh-spec" else "dial:reused-spec"] ++
     (if s.rand then ["dial:rand"] else ["dial:fixed-order"]) ++
     (if expect.length < s.list.length then ["dial:suppressed"] else []) ++
@@ -504,14 +517,14 @@ def stepDist (name nS NS impl : String) : StepOut :=
     { model := "counts", tags := [name], fails := [("shuffle_distribution", "-", s!"malformed counts {impl}")] }
   else
     let missing := (perms.zip cs).filter (fun pc => pc.2 == 0)
-    let outl := (perms.zip cs).filter (fun pc => !withinSigma 7 pc.2 N K)
+    let outl := (perms.zip cs).filter (fun pc => !withinSigma 8 pc.2 N K)
     let pos := (List.range n).flatMap fun e => (List.range n).filterMap fun i =>
       let c := ((perms.zip cs).filter (fun pc => pc.1.getD i n == e)).foldl (fun a pc => a + pc.2) 0
-      if withinSigma 7 c N n then none else some s!"element {e} at position {i}: {c} of {N}"
+      if withinSigma 8 c N n then none else some s!"element {e} at position {i}: {c} of {N}"
     { model := impl, tags := [name, s!"{name}:n={n}"],
       fails :=
         failIf (!missing.isEmpty) "every_permutation_reachable" "-" s!"{missing.length} of {K} permutations never seen in {N} shuffles: {impl}" ++
-        failIf (!outl.isEmpty) "shuffle_distribution" "-" s!"{outl.length} permutation counts further than 7 sigma from {N}/{K}: {impl}" ++
+        failIf (!outl.isEmpty) "shuffle_distribution" "-" s!"{outl.length} permutation counts further than 8 sigma from {N}/{K}: {impl}" ++
         failIf (!pos.isEmpty) "shuffle_distribution" "-" (", ".intercalate pos) }
 
 def step (s : St) (op impl : String) : St × StepOut :=
